@@ -1,6 +1,7 @@
 package main
 
 import (
+	"context"
 	"fmt"
 	"os"
 	"strings"
@@ -163,7 +164,9 @@ func (c *caseSink) add(class string, input, obs map[string]any, what string, kf 
 	c.list = append(c.list, goCase{class, input, obs, what, kf, prefix})
 }
 
-func runJobs(w *lib.Writer, jobs []func(*caseSink)) {
+// groupOf[i] names the group of job i (jobs of one group are written together, see addGrouped); a
+// missing entry makes the job a group of its own
+func runJobs(w *lib.Writer, jobs []func(*caseSink), groupOf ...string) {
 	sinks := make([]caseSink, len(jobs))
 	var wg sync.WaitGroup
 	sem := make(chan struct{}, 8)
@@ -182,9 +185,73 @@ func runJobs(w *lib.Writer, jobs []func(*caseSink)) {
 		}(i)
 	}
 	wg.Wait()
-	for _, sk := range sinks {
-		for _, c := range sk.list {
-			addGoCase(w, c.class, c.input, c.obs, c.what, c.kf, c.prefix)
+	merged := map[string][]goCase{}
+	var order []string
+	for i, sk := range sinks {
+		g := fmt.Sprint("job", i)
+		if i < len(groupOf) {
+			g = groupOf[i]
+		}
+		if _, ok := merged[g]; !ok {
+			order = append(order, g)
+		}
+		merged[g] = append(merged[g], sk.list...)
+	}
+	for _, g := range order {
+		addGrouped(w, merged[g])
+	}
+}
+
+// addGrouped writes the verdicts of one job: a failure that is not an exactly-matched listed finding is a
+// case (and a violation) of its own; the passing verdicts of the job become ONE case, and so do the
+// verdicts falling under each listed finding (every case costs a kernel evaluation and shards are
+// small; the Go-side verdicts need none). Every verdict counts as a Go-side evaluation.
+func addGrouped(w *lib.Writer, list []goCase) {
+	type group struct {
+		first   goCase
+		members []map[string]any
+		whats   []string
+	}
+	groups := map[string]*group{}
+	var order []string
+	for _, c := range list {
+		w.Meta.GoOnlyChecked++
+		if c.what != "" && len(c.kf) == 0 {
+			addGoCase(w, c.class, c.input, c.obs, c.what, nil, c.prefix)
+			continue
+		}
+		key := c.class + "|" + strings.Join(c.kf, ",")
+		g := groups[key]
+		if g == nil {
+			g = &group{first: c}
+			groups[key] = g
+			order = append(order, key)
+		}
+		m := map[string]any{}
+		for k, v := range c.input {
+			if k != "src" {
+				m[k] = v
+			}
+		}
+		for k, v := range c.obs {
+			m["obs_"+k] = v
+		}
+		g.members = append(g.members, m)
+		if c.what != "" {
+			g.whats = append(g.whats, c.prefix+": "+c.what)
+		}
+	}
+	for _, key := range order {
+		g := groups[key]
+		what := ""
+		if len(g.whats) > 0 {
+			what = fmt.Sprintf("%d verdict(s) under the listed finding; first: %s", len(g.whats), g.whats[0])
+		}
+		input := map[string]any{"api": g.first.input["api"], "grouped": len(g.members), "members": g.members}
+		obs := map[string]any{"verdicts": len(g.members), "failed": what != "", "what": what}
+		id := w.Add(lib.Case{Input: input, Observed: obs, Class: g.first.class, Nontrivial: true, KF: g.first.kf, Coq: "CProg [] (Outcome [] (OOk []))"})
+		if what != "" {
+			w.GoFail(id, what)
 		}
 	}
 }
@@ -193,7 +260,6 @@ func addGoCase(w *lib.Writer, class string, input map[string]any, observed map[s
 	observed["failed"] = what != ""
 	observed["what"] = what
 	id := w.Add(lib.Case{Input: input, Observed: observed, Class: class, Nontrivial: true, KF: kf, Coq: "CProg [] (Outcome [] (OOk []))"})
-	w.Meta.GoOnlyChecked++
 	if what != "" {
 		w.GoFail(id, failPrefix+": "+what)
 	}
@@ -219,10 +285,12 @@ func handlerAtLimits(w *lib.Writer) {
 		{"pcall-gohandler", ""}, {"pcall-luahandler", ""}, {"callbyparam-handler", ""},
 	}
 	var jobs []func(*caseSink)
-	defer func() { runJobs(w, jobs) }()
+	var groups []string
+	defer func() { runJobs(w, jobs, groups...) }()
 	for _, o := range limOpts {
 		for _, cx := range contexts {
 			o, cx := o, cx
+			groups = append(groups, o.name)
 			jobs = append(jobs, func(sink *caseSink) {
 				L := lua.NewState(o.opt)
 				setup := guarded(func() string {
@@ -327,7 +395,7 @@ function lua_handler(m) hruns = hruns + 1; hseen = levels(); return "H:" .. tost
 							return wh
 						})
 					}
-					sink.add("limit-handler-"+cx.name, map[string]any{"api": "handler-at-limit", "kind": kind, "context": cx.name, "options": o.name},
+					sink.add("limit-handler", map[string]any{"api": "handler-at-limit", "kind": kind, "context": cx.name, "options": o.name},
 						obs, what, kf, fmt.Sprintf("protected call with a handler around a function that runs into a limit (%s, %s, options %s)", kind, cx.name, o.name))
 				}
 				L.Close()
@@ -364,7 +432,8 @@ function step(next_level, k)
   return "v"
 end`
 	var jobs []func(*caseSink)
-	defer func() { runJobs(w, jobs) }()
+	var groups []string
+	defer func() { runJobs(w, jobs, groups...) }()
 	for _, o := range limOpts[1:] {
 		for _, ld := range ladders {
 			if o.name == "big-fixed" && ld.name == "wrap" {
@@ -372,6 +441,7 @@ end`
 			}
 			for _, rethrow := range []bool{false, true} {
 				o, ld, rethrow := o, ld, rethrow
+				groups = append(groups, o.name)
 				jobs = append(jobs, func(sink *caseSink) {
 					obs := map[string]any{}
 					var kf []string
@@ -467,6 +537,9 @@ var histEvents = []histEvent{
 	{"error-after-inner-success", 260, `pcall(function() local ok = pcall(function() return 1 end); local v = coroutine.wrap(function() return 2 end)(); error("late") end)`, ""},
 	{"nested-three-deep", 260, `pcall(function() pcall(function() pcall(error, "a"); error("b") end); error("c") end)`, ""},
 	{"error-through-5-wraps", 120, `local function lv(n) if n == 0 then error("bottom") end; return coroutine.wrap(lv)(n - 1) end; pcall(lv, 5)`, ""},
+	{"locals-upvalues-across-growth", 120, `local a, b = i, 2 * i; local function get() return a + b end
+      local ok, e = pcall(function() local x, y = 10, 20; local function inner() return x + y + a end; a = a + 1; local t = {unpack(big, 1, 700 + i)}; x = x + #t; error({inner()}) end)
+      assert(not ok and e[1] == 10 + 700 + i + 20 + i + 1, "value computed before the error"); assert(a == i + 1 and b == 2 * i and get() == 3 * i + 1, "caller's locals and upvalues after the failed call")`, ""},
 	// expensive events: a few repetitions, the per-event snapshot does the work
 	{"ccalls-overflow-pcall", 3, `pcall(mk("index")); pcall(mk("gsub")); pcall(mk("sort")); pcall(mk("pcall")); pcall(mk("concat"))`, ""},
 	{"ccalls-overflow-xpcall", 3, `xpcall(mk("index"), function(m) return m end); xpcall(mk("iter"), function(m) error(m) end); xpcall(mk("tostring"), function(m) return mk("add")() end)`, ""},
@@ -529,7 +602,8 @@ func snapString(L *lua.LState) string {
 // between two measurements.
 func bookkeepingAfter(w *lib.Writer, tier string, seed uint64) {
 	var jobs []func(*caseSink)
-	defer func() { runJobs(w, jobs) }()
+	var groups []string
+	defer func() { runJobs(w, jobs, groups...) }()
 	for oi, o := range limOpts {
 		for ci, cx := range histContexts {
 			oi, o, ci, cx := oi, o, ci, cx
@@ -538,6 +612,7 @@ func bookkeepingAfter(w *lib.Writer, tier string, seed uint64) {
 			if tier != "thorough" && ci != (oi+int(seed%4))%len(histContexts) && !(oi == 0 && ci == 0) {
 				continue
 			}
+			groups = append(groups, "all")
 			jobs = append(jobs, func(sink *caseSink) {
 				r := lib.NewRand(seed ^ 0x5c05 ^ uint64(oi*16+ci))
 				L := lua.NewState(o.opt)
@@ -602,7 +677,7 @@ func bookkeepingAfter(w *lib.Writer, tier string, seed uint64) {
 					if os.Getenv("C05_TIMING") == "2" {
 						fmt.Fprintf(os.Stderr, "  %s %s %s: %v\n", o.name, cx.name, ev.name, time.Since(tEv))
 					}
-					sink.add("history-"+cx.name, map[string]any{"api": "bookkeeping-after-history", "event": ev.name, "context": cx.name, "options": o.name, "n": n, "src": src},
+					sink.add("bookkeeping", map[string]any{"api": "bookkeeping-after-history", "event": ev.name, "context": cx.name, "options": o.name, "n": n, "src": src},
 						obs, what, nil, fmt.Sprintf("bookkeeping after %d contained errors of kind %q (%s, options %s)", n, ev.name, cx.name, o.name))
 				}
 				// all later behaviour: a fixed follow-up on the same state
@@ -621,7 +696,7 @@ assert(select("#", pcall(error, "x")) == 2 and (string.gsub("ab", "%w", function
 						return ""
 					})
 				}
-				sink.add("history-"+cx.name, map[string]any{"api": "bookkeeping-after-history", "event": "follow-up", "context": cx.name, "options": o.name},
+				sink.add("bookkeeping", map[string]any{"api": "bookkeeping-after-history", "event": "follow-up", "context": cx.name, "options": o.name},
 					map[string]any{}, what, nil, fmt.Sprintf("follow-up chunk after all histories (%s, options %s)", cx.name, o.name))
 				L.Close()
 			})
@@ -686,6 +761,8 @@ func raisedValues(w *lib.Writer) {
 		}
 		return ""
 	}
+	sink := &caseSink{}
+	defer func() { addGrouped(w, sink.list) }()
 	for _, r := range raisers {
 		for _, style := range []string{"go-pcall", "go-callbyparam", "go-pcall-in-hostfn", "go-resume-thread", "lua-pcall", "lua-pcall-direct", "lua-wrap-body", "lua-resume-body", "lua-xpcall"} {
 			obs := map[string]any{}
@@ -771,8 +848,256 @@ func raisedValues(w *lib.Writer) {
 					return check(r, "lua", nil, v)
 				}
 			})
-			addGoCase(w, "raised-value", map[string]any{"api": "raised-value", "raiser": r.name, "style": style}, obs, what, nil,
+			sink.add("raised-value", map[string]any{"api": "raised-value", "raiser": r.name, "style": style}, obs, what, nil,
 				fmt.Sprintf("value raised by a Go function (%s) as seen by the catcher (%s)", r.name, style))
+		}
+	}
+}
+
+/* ---------- cancellation at every instruction boundary of a workload, bookkeeping afterwards ---------- */
+
+// rearmable: a context whose Done() is closed for exactly one poll, the k-th after arm(k)
+type rearmable struct {
+	context.Context
+	mu     sync.Mutex
+	k, n   int
+	closed chan struct{}
+	open   chan struct{}
+}
+
+func newRearmable() *rearmable {
+	c := make(chan struct{})
+	close(c)
+	return &rearmable{Context: context.Background(), closed: c, open: make(chan struct{})}
+}
+
+func (o *rearmable) arm(k int) { o.mu.Lock(); o.k, o.n = k, 0; o.mu.Unlock() }
+
+func (o *rearmable) Done() <-chan struct{} {
+	o.mu.Lock()
+	defer o.mu.Unlock()
+	if o.k <= 0 {
+		return o.open
+	}
+	o.n++
+	if o.n >= o.k {
+		o.k = 0
+		return o.closed
+	}
+	return o.open
+}
+
+func (o *rearmable) Err() error { return fmt.Errorf("injected cancellation") }
+
+var cancelWorkloads = []struct{ name, src string }{
+	{"mixed", `local t = setmetatable({}, {__index = function(_, k) return k end}); local s = 0; for j = 1, 3 do s = s + t[j] end
+      pcall(error, "x"); xpcall(function() error("y") end, function(m) return m end)
+      string.gsub("ab", "%w", function(c) return c end); table.sort({3, 1, 2}, function(a, b) return a < b end)
+      for _, v in ipairs({1, 2}) do s = s + v end; s = s + #tostring(setmetatable({}, {__tostring = function() return "ts" end}))`},
+	{"calls", `local function f(n, ...) if n == 0 then return ... end; return f(n - 1, n, ...) end; local function g(...) return select("#", ...) end
+      local a = g(f(6)); local o = setmetatable({}, {__call = function(self, x) return x end}); a = a + o(1); local up = 0; local function inc() up = up + 1; return up end; inc(); inc()
+      pcall(function() local z = 1; local function c() z = z + 1 end; c(); error("e") end)`},
+	{"handlers", `xpcall(function() local t; return t.x end, function(m) local s = 0; for j = 1, 5 do s = s + j end; return m end)
+      xpcall(function() error("a") end, function(m) error("b") end)
+      pcall(function() pcall(function() pcall(error, "c") error("d") end) error("e") end)`},
+}
+
+func cancellationBookkeeping(w *lib.Writer, tier string, seed uint64) {
+	var jobs []func(*caseSink)
+	var groups []string
+	defer func() { runJobs(w, jobs, groups...) }()
+	for oi, o := range limOpts {
+		if tier != "thorough" && oi != 0 && oi != 1+int(seed%3) {
+			continue
+		}
+		for ci, cx := range histContexts {
+			if cx.name == "in-coroutine" {
+				continue // a coroutine thread polls a context derived from the state's: the poll counter is not its own
+			}
+			if tier != "thorough" && oi != 0 && ci != int(seed%2)*2 {
+				continue
+			}
+			o, cx := o, cx
+			groups = append(groups, "all")
+			jobs = append(jobs, func(sink *caseSink) {
+				L := lua.NewState(o.opt)
+				defer L.Close()
+				shot := newRearmable()
+				L.SetContext(shot)
+				L.SetGlobal("snap", L.NewFunction(func(L *lua.LState) int { L.Push(lua.LString(snapString(L))); return 1 }))
+				L.SetGlobal("arm", L.NewFunction(func(L *lua.LState) int { shot.arm(L.CheckInt(1)); return 0 }))
+				fired := 0
+				L.SetGlobal("disarm", L.NewFunction(func(L *lua.LState) int {
+					shot.mu.Lock()
+					if shot.k == 0 {
+						fired++
+					}
+					shot.k = -1
+					shot.mu.Unlock()
+					return 0
+				}))
+				setup := guarded(func() string {
+					if err := L.DoString(limitPrelude + gaugePrelude); err != nil {
+						return "prelude: " + err.Error()
+					}
+					return ""
+				})
+				for _, wl := range cancelWorkloads {
+					n := 260
+					obs := map[string]any{}
+					what := setup
+					src := ""
+					if what == "" {
+						what = guarded(func() string {
+							L.SetTop(0)
+							L.SetGlobal("COGAUGES", lua.LFalse)
+							fired = 0
+							fresh := lua.VerifDepthSnapshot(L)
+							src = "local EVENT, N = function(i) pcall(function() arm(i) " + wl.src + " disarm() end) disarm() end, " + fmt.Sprint(n) + "\n" + cx.call
+							if err := L.DoString(src); err != nil {
+								return "the history left DoString: " + short(err.Error(), 300)
+							}
+							if L.GetTop() != 5 {
+								return fmt.Sprintf("measure returned %d values: %s", L.GetTop(), short(L.Get(-1).String(), 200))
+							}
+							g0, g1, s0, s1, bad := L.Get(1).String(), L.Get(2).String(), L.Get(3).String(), L.Get(4).String(), L.Get(5).String()
+							obs["gauges"], obs["n"], obs["fired"] = g0, n, fired
+							L.SetTop(0)
+							switch {
+							case bad != "":
+								return "bookkeeping changed by one contained cancellation: " + bad
+							case s0 != s1:
+								return "bookkeeping before the history: " + s0 + ", after: " + s1
+							case g0 != g1:
+								return fmt.Sprintf("nesting depths / registry room before the history: %s, after %d contained cancellations: %s", g0, fired, g1)
+							case fired < 20:
+								return fmt.Sprintf("only %d of %d cancellations fired inside the workload", fired, n)
+							}
+							if after := lua.VerifDepthSnapshot(L); after != fresh {
+								return fmt.Sprintf("state before the chunk %+v, after %+v", fresh, after)
+							}
+							return ""
+						})
+					}
+					sink.add("bookkeeping", map[string]any{"api": "bookkeeping-after-cancellation", "workload": wl.name, "context": cx.name, "options": o.name, "n": n, "src": src},
+						obs, what, nil, fmt.Sprintf("bookkeeping after cancellations at the 1st..%dth instruction boundary of workload %q, each contained by pcall (%s, options %s)", n, wl.name, cx.name, o.name))
+				}
+			})
+		}
+	}
+}
+
+/* ---------- Go-side protected calls on a thread other than the main one ---------- */
+
+// threadsProtected: PCall / CallByParam on a thread made by NewThread (fresh, or suspended in a yield) with
+// callees failing in every way: error returned, the thread's bookkeeping and stack height as before, the
+// thread still usable (a fresh one can be resumed with a function, a suspended one continues).
+func threadsProtected(w *lib.Writer) {
+	sink := &caseSink{}
+	defer func() { addGrouped(w, sink.list) }()
+	type callee struct {
+		name string
+		mk   func(L *lua.LState) lua.LValue
+	}
+	callees := []callee{
+		{"nil", func(L *lua.LState) lua.LValue { return lua.LNil }},
+		{"lua-error", func(L *lua.LState) lua.LValue { return L.GetGlobal("lua_err") }},
+		{"lua-runtime", func(L *lua.LState) lua.LValue { return L.GetGlobal("lua_rt") }},
+		{"go-raise", func(L *lua.LState) lua.LValue {
+			return L.NewFunction(func(L *lua.LState) int { L.RaiseError("go raise"); return 0 })
+		}},
+		{"go-panic", func(L *lua.LState) lua.LValue {
+			return L.NewFunction(func(L *lua.LState) int { panic("p") })
+		}},
+		{"ccalls-overflow", func(L *lua.LState) lua.LValue { return L.GetGlobal("deep_meta") }},
+		{"wrap-error", func(L *lua.LState) lua.LValue { return L.GetGlobal("wrap_err") }},
+		{"yield", func(L *lua.LState) lua.LValue { return L.GetGlobal("yielder") }},
+	}
+	const prelude = `
+function lua_err(...) error({code = select('#', ...)}) end
+function lua_rt(a) local t = nil; return t.x end
+function deep_meta() local t; t = setmetatable({}, {__index = function(_, k) return t[k + 1] end}); return t[1] end
+function wrap_err() return coroutine.wrap(function() error("in co") end)() end
+function yielder() coroutine.yield(1) end
+function body(a) local b = coroutine.yield(a + 1); return b * 2 end
+function leaf(...) return ... end`
+	for _, o := range limOpts[:2] {
+		for _, c := range callees {
+			for _, style := range []string{"pcall", "pcall-handler", "callbyparam"} {
+				for _, suspended := range []bool{false, true} {
+					obs := map[string]any{}
+					what := guarded(func() string {
+						L := lua.NewState(o.opt)
+						defer L.Close()
+						if err := L.DoString(prelude); err != nil {
+							return "prelude: " + err.Error()
+						}
+						th, _ := L.NewThread()
+						if suspended {
+							st, err, vals := L.Resume(th, L.GetGlobal("body").(*lua.LFunction), lua.LNumber(1))
+							if st != lua.ResumeYield || err != nil || len(vals) != 1 || vals[0] != lua.LNumber(2) {
+								return fmt.Sprintf("first resume: %v %v %v", st, err, vals)
+							}
+						}
+						// G.CurrentThread is left out: Call on a thread that was not entered by Resume does not maintain
+						// it (a coroutine resumed inside hands it back to the thread, also when nothing fails)
+						snapOf := func(x *lua.LState) lua.VerifDepth { d := lua.VerifDepthSnapshot(x); d.CurrentIsL = false; return d }
+						main0 := snapOf(L)
+						for round := 0; round < 3; round++ {
+							before := snapOf(th)
+							top := th.GetTop()
+							fn := c.mk(L)
+							hruns := 0
+							var err error
+							switch style {
+							case "pcall", "pcall-handler":
+								th.Push(fn)
+								th.Push(lua.LNumber(1))
+								var h *lua.LFunction
+								if style == "pcall-handler" {
+									h = L.NewFunction(func(L *lua.LState) int { hruns++; L.Push(lua.LString("handled")); return 1 })
+								}
+								err = th.PCall(1, lua.MultRet, h)
+							default:
+								err = th.CallByParam(lua.P{Fn: fn, NRet: 1, Protect: true}, lua.LNumber(1))
+							}
+							if err == nil {
+								return "the failing callee returned no error"
+							}
+							if style == "pcall-handler" && hruns != 1 && !(c.name == "yield" && hruns <= 1) {
+								return fmt.Sprintf("handler ran %d times", hruns)
+							}
+							if th.GetTop() != top {
+								return fmt.Sprintf("value-stack height of the thread after the failed protected call is %d, was %d", th.GetTop(), top)
+							}
+							if after := snapOf(th); after != before {
+								return fmt.Sprintf("thread bookkeeping before the failed call %+v, after %+v", before, after)
+							}
+							if m := snapOf(L); m != main0 {
+								return fmt.Sprintf("main-state bookkeeping before %+v, after %+v", main0, m)
+							}
+						}
+						// the thread is still what it was
+						if suspended {
+							st, err, vals := L.Resume(th, nil, lua.LNumber(21))
+							if st != lua.ResumeOK || err != nil || len(vals) != 1 || vals[0] != lua.LNumber(42) {
+								return fmt.Sprintf("the suspended thread did not continue: %v %v %v", st, err, vals)
+							}
+						} else {
+							st, err, vals := L.Resume(th, L.GetGlobal("leaf").(*lua.LFunction), lua.LNumber(7))
+							if st != lua.ResumeOK || err != nil || len(vals) != 1 || vals[0] != lua.LNumber(7) {
+								return fmt.Sprintf("the fresh thread could not be resumed afterwards: %v %v %v", st, err, vals)
+							}
+						}
+						if err := L.DoString(`assert(select("#", pcall(error, "x")) == 2); local co = coroutine.wrap(body); assert(co(1) == 2 and co(21) == 42)`); err != nil {
+							return "follow-up chunk failed: " + short(err.Error(), 200)
+						}
+						return ""
+					})
+					sink.add("api-thread", map[string]any{"api": "protected-call-on-thread", "callee": c.name, "style": style, "suspended": suspended, "options": o.name},
+						obs, what, nil, fmt.Sprintf("Go-side protected call (%s) of callee %q on a NewThread thread (suspended in a yield: %v, options %s)", style, c.name, suspended, o.name))
+				}
+			}
 		}
 	}
 }
@@ -797,6 +1122,10 @@ func wave5(w *lib.Writer, tier string, seed uint64) {
 	lap("handlerLadder")
 	bookkeepingAfter(w, tier, seed)
 	lap("bookkeepingAfter")
+	cancellationBookkeeping(w, tier, seed)
+	lap("cancellationBookkeeping")
+	threadsProtected(w)
+	lap("threadsProtected")
 	raisedValues(w)
 	lap("raisedValues")
 }
